@@ -1285,6 +1285,23 @@ def oracle(op, c_out):
                 e = (((v << sft) >> W) % N, ((v << sft) >> ((n + 1) * W)) % B)
             if (unhex(o[0]), int(o[1])) != e:
                 return "expected %s %d" % (hx(e[0], n, W), e[1])
+        elif f in ("zzRandMod", "zzRandNZMod"):
+            m, n = unhex(a[0]), nwords(a[0], W)
+            tape = b"" if a[1] == "-" else bytes.fromhex(a[1])
+            l = m.bit_length()
+            c = (l + 7) // 8
+            nz = f == "zzRandNZMod"
+            tries = 129 if nz and l <= 16 else 65
+            want = None
+            for j in range(tries):
+                v = int.from_bytes((tape[j * c:(j + 1) * c] + bytes(c))[:c], "little") % (1 << l)
+                if v < m and not (nz and v == 0):
+                    want = ["1", hx(v, n, W), str((j + 1) * c)]
+                    break
+            if want is None:
+                want = ["0", str(tries * c)]
+            if o != want:
+                return "expected " + " ".join(want)
         elif f == "wwNAF":
             x, w, n = unhex(a[0]), int(a[1]), nwords(a[0], W)
             size, code = int(o[0]), unhex(o[1])
